@@ -263,7 +263,29 @@ type vkFrame struct {
 	Expect string // answer | formerr | notimp | none | hangup
 }
 
-var vkFrameKinds = []string{"hit", "miss", "malf", "qr", "notify", "short", "big2048", "big2049", "big4200", "panic", "eager"}
+var vkFrameKinds = []string{"hit", "miss", "malf", "qr", "notify", "short", "big2048", "big2049", "big4200", "panic", "eager", "ckhit", "edhit"}
+
+// vkHitKind: the frame asks the client's pre-cached name.
+func vkHitKind(k string) bool { return k == "hit" || k == "ckhit" || k == "edhit" }
+
+// vkEDNSQueryBytes is a query with an OPT record and, when cookie is set, an
+// EDNS COOKIE option whose 8 client bytes are the given text.
+func vkEDNSQueryBytes(name string, id uint16, cookie string) []byte {
+	m := new(dns.Msg)
+	m.SetQuestion(name, dns.TypeTXT)
+	m.Id = id
+	opt := &dns.OPT{Hdr: dns.RR_Header{Name: ".", Rrtype: dns.TypeOPT}}
+	opt.SetUDPSize(1232)
+	if cookie != "" {
+		opt.Option = []dns.EDNS0{&dns.EDNS0_COOKIE{Code: dns.EDNS0COOKIE, Cookie: fmt.Sprintf("%x", []byte(cookie)[:8])}}
+	}
+	m.Extra = []dns.RR{opt}
+	b, err := m.Pack()
+	if err != nil {
+		panic(err)
+	}
+	return b
+}
 
 func vkQueryBytes(name string, id uint16, total int) []byte {
 	m := new(dns.Msg)
@@ -307,6 +329,14 @@ func vkMakeFrame(kind, tag string, pos int) vkFrame {
 	case "hit":
 		f.Name = fmt.Sprintf("hit.%s.c10.test.", tag)
 		f.Raw = vkQueryBytes(f.Name, id, 0)
+	case "ckhit":
+		// EDNS query carrying a client cookie made of the client's own 8 tag bytes:
+		// per-request EDNS state of a reused slab must not reach the next client
+		f.Name = fmt.Sprintf("hit.%s.c10.test.", tag)
+		f.Raw = vkEDNSQueryBytes(f.Name, id, tag)
+	case "edhit":
+		f.Name = fmt.Sprintf("hit.%s.c10.test.", tag)
+		f.Raw = vkEDNSQueryBytes(f.Name, id, "")
 	case "miss", "eager":
 		f.Raw = vkQueryBytes(f.Name, id, 0)
 	case "panic":
@@ -376,7 +406,7 @@ func (w *vkSrvWorld) warm(tags ...string) string {
 // purge removes the run's miss-type names so the next run misses again.
 func (w *vkSrvWorld) purge(frames []vkFrame) {
 	for _, f := range frames {
-		if (f.Expect == "answer" || f.Expect == "panic") && f.Kind != "hit" {
+		if (f.Expect == "answer" || f.Expect == "panic") && !vkHitKind(f.Kind) {
 			w.cache.Purge(dns.Question{Name: f.Name, Qtype: dns.TypeTXT, Qclass: dns.ClassINET})
 		}
 	}
@@ -486,7 +516,7 @@ func vkJudgeStreamAt(tag string, complete []vkFrame, out []byte, foreign [][]byt
 			if !strings.HasPrefix(txt.Txt[0], wantPrefix) {
 				return fmt.Sprintf("%s: marker %q is not for %s", where, txt.Txt[0], f.Name)
 			}
-			if f.Kind != "hit" && txt.Txt[0] != vkMarker(f.Name, f.ID) {
+			if !vkHitKind(f.Kind) && txt.Txt[0] != vkMarker(f.Name, f.ID) {
 				return fmt.Sprintf("%s: marker %q, want %q (another query's answer)", where, txt.Txt[0], vkMarker(f.Name, f.ID))
 			}
 		}
